@@ -725,6 +725,13 @@ func cmdCheck(args []string) int {
 		fmt.Println(k)
 	}
 	for _, o := range vacuous {
+		if len(violations) > 0 {
+			// an invariant or assertion that no longer holds on this tree can contradict what follows it (a loop
+			// invariant that fails its step and the negated loop condition, say): the unreachable point is a
+			// consequence of the reported violation, not a fault of the machinery
+			fmt.Println("note: the assumptions at " + o.Name + " are contradictory on this tree (a consequence of the violated clause reported below)")
+			continue
+		}
 		engineFault = append(engineFault, "vacuous contract: the assumptions at "+o.Name+" are contradictory (every obligation after this point would be discharged trivially)")
 	}
 	_ = covers
